@@ -8,6 +8,7 @@ import (
 	"strings"
 
 	"verif/harness/internal/abs"
+	"verif/harness/internal/gen"
 	"verif/harness/internal/read"
 	"verif/harness/internal/run"
 )
@@ -150,6 +151,36 @@ func vseams(args []string) error {
 			// the split may fall inside a token: put the padding after the first byte instead
 			text = append(append(append([]byte{}, base[:1]...), pad...), base[1:]...)
 			cases = append(cases, seamCase{text: text, want: v, valid: true, desc: fmt.Sprintf("document of exactly %d bytes", size)})
+		}
+	}
+	// (3a) wide containers (more members than any small-case fast path expects): 31..34, 63..66, 127..130, 300 members; the first
+	// member of each scalar kind and the rest cycling through all kinds, integers beyond 2^53 included
+	{
+		kinds := []abs.Value{{K: '#', Lit: "1.5"}, {K: '#', Lit: "7"}, {K: '#', Lit: "9007199254740993"}, {K: '#', Lit: "18446744073709551615"}, {K: 's', Str: []byte("s")},
+			{K: 'n'}, {K: 't'}, {K: '#', Lit: "-9223372036854775808"}, {K: 'a', Arr: []abs.Value{}}, {K: '#', Lit: "2.5e-7"}}
+		for _, n := range []int{31, 32, 33, 34, 63, 64, 65, 66, 127, 128, 129, 130, 300} {
+			for first := range kinds {
+				arr := abs.Value{K: 'a', Arr: []abs.Value{}}
+				obj := abs.Value{K: 'o', Obj: []abs.Member{}}
+				numsOnly := abs.Value{K: 'a', Arr: []abs.Value{}}
+				for i := 0; i < n; i++ {
+					v := kinds[(first+i)%len(kinds)]
+					if i == 0 {
+						v = kinds[first]
+					}
+					arr.Arr = append(arr.Arr, v)
+					obj.Obj = append(obj.Obj, abs.Member{Key: []byte(fmt.Sprintf("k%d", i)), Val: v})
+					if v.K == '#' {
+						numsOnly.Arr = append(numsOnly.Arr, v)
+					} else {
+						numsOnly.Arr = append(numsOnly.Arr, kinds[(first+i)%4])
+					}
+				}
+				for _, d := range []abs.Value{arr, obj, numsOnly, {K: 'a', Arr: []abs.Value{{K: 'n'}, arr, numsOnly}}} {
+					text := gen.Render(r, gen.Opts{}, nil, d)
+					cases = append(cases, seamCase{text: text, want: d, valid: true, desc: fmt.Sprintf("container of %d members starting with kind %d", n, first)})
+				}
+			}
 		}
 	}
 	// (3b) distances of 64 KiB and more between two structural characters (one long string, one long white-space run): the
